@@ -93,7 +93,7 @@ func TestVerifC32StraceChild(t *testing.T) {
 
 var (
 	straceTok = regexp.MustCompile(`(?:(AT_FDCWD|\d+)<((?:\\x[0-9a-f]{2})*)>)|"((?:\\x[0-9a-f]{2})*)"`)
-	straceRes = regexp.MustCompile(`\) = (-?\d+)`)
+	straceRes = regexp.MustCompile(`\)\s+= (-?\d+)`)
 )
 
 func unhex(s string) string {
@@ -123,15 +123,16 @@ func parseStraceCall(s string) (straceCall, bool) {
 		return sc, false
 	}
 	sc.name = s[:p]
-	q := strings.LastIndex(s, ") = ")
-	if q < 0 {
+	// "<args>) = 3<...>", or "<args>)      = -1 ENOENT" on resumed lines
+	locs := straceRes.FindAllStringSubmatchIndex(s, -1)
+	if len(locs) == 0 {
 		return sc, false
 	}
+	loc := locs[len(locs)-1]
+	q := loc[0]
 	args := s[p+1 : q]
-	if m := straceRes.FindStringSubmatch(s[q:]); m != nil {
-		v, _ := strconv.Atoi(m[1])
-		sc.ok = v >= 0
-	}
+	v, _ := strconv.Atoi(s[loc[2]:loc[3]])
+	sc.ok = v >= 0
 	last := 0
 	for _, m := range straceTok.FindAllStringSubmatchIndex(args, -1) {
 		if m[2] >= 0 {
@@ -190,7 +191,7 @@ func runStraceMonitor(c *kit.Check) {
 	work := filepath.Join(kit.WorkDir("C32"), "strace")
 	os.RemoveAll(work)
 	must(os.MkdirAll(work, 0755), "strace work dir")
-	n := 170
+	n := 136
 	exe, err := os.Executable()
 	must(err, "executable")
 	trace := filepath.Join(work, "trace.txt")
@@ -294,7 +295,9 @@ func runStraceMonitor(c *kit.Check) {
 	if calls < windows {
 		c.Inconclusive(fmt.Sprintf("strace monitor saw only %d write syscalls in %d windows", calls, windows))
 	}
-	os.Remove(trace)
+	if windows == n && calls >= windows {
+		os.Remove(trace) // kept for inspection otherwise
+	}
 }
 
 func head(b []byte, n int) []byte {
